@@ -5,6 +5,9 @@ first_run={'C01':'caught','C02':'missed','C03':'missed','C04':'missed','C05':'mi
 first_run.update({'C01-2':'missed','C02-2':'missed by C02 (caught by C13: stale-index-entry)','C03-2':'missed','C04-2':'missed','C05-2':'missed','C06-2':'missed by C06 (caught by C04)','C07-2':'missed','C08-2':'missed','C09-2':'missed','C10-2':'caught','C11-2':'caught','C12-2':'missed','C13-2':'caught','C14-2':'missed','C15-2':'caught','C16-2':'missed','C17-2':'missed','C18-2':'caught','C19-2':'caught','C20-2':'missed'})
 first_run.update({'C01-3':'caught','C02-3':'missed','C03-3':'missed by C03 (caught by C01 / C02: two-observed-attestations)','C04-3':'missed by C04 (caught by C01: re-entrancy job)','C05-3':'missed','C06-3':'missed','C07-3':'missed','C08-3':'caught','C09-3':'missed','C10-3':'caught','C11-3':'caught','C12-3':'missed','C13-3':'caught','C14-3':'caught','C15-3':'caught','C17-3':'missed','C18-3':'missed by C18 (caught by C04)','C19-3':'missed','C20-3':'caught'})
 first_run.update({'C01-4':'missed','C02-4':'caught','C03-4':'missed','C04-4':'missed','C05-4':'missed by C05 (caught by C06)','C06-4':'missed by C06; caught by C03 at first run (check_by.txt)','C07-4':'missed','C08-4':'missed','C09-4':'missed','C10-4':'missed by C10; caught by C09 at first run (check_by.txt)','C11-4':'caught','C13-4':'missed','C14-4':'missed','C15-4':'harness error only (now a violation)','C17-4':'missed','C18-4':'missed','C19-4':'caught','C20-4':'missed'})
+first_run.update({'C01-5':'caught','C02-5':'missed','C04-5':'caught','C06-5':'missed','C07-5':'missed','C08-5':'missed','C13-5':'caught','C15-5':'missed','C19-5':'caught',
+ 'C03-5':'missed','C09-5':'caught','C10-5':'missed','C11-5':'caught','C12-5':'caught','C14-5':'missed','C16-5':'caught','C17-5':'missed','C18-5':'missed','C20-5':'caught'})
+if os.path.exists('/verif/tools/first_run_6.json'): first_run.update(json.load(open('/verif/tools/first_run_6.json')))
 for name in sorted(os.listdir('/verif/seeded')):
     pid=name; d=f'/verif/seeded/{pid}'
     if not os.path.exists(f'{d}/agent_meta.json'): continue
@@ -18,7 +21,7 @@ for name in sorted(os.listdir('/verif/seeded')):
       written_by='fresh sub-agent given only the property text and a scratch worktree of /repo',
       what_i_ran=dict(
         script='tools/confirm_seeds.sh / confirm_seeds2.sh (scratch worktree under /tmp, removed afterwards): go build ./... ; demonstration with the change ; demonstration after git apply -R ; tests of the packages the patch touches ; go test -vet=off -timeout 25m ./... with the change and without the demonstration file (SUITE lines; where no SUITE line is present my own whole-suite run did not finish in the session and the whole-suite result is the sub-agent\'s, see tests_result)',
-        result=[l for l in conf.splitlines() if l.startswith('demo with') or l.startswith('RESULT') or l.startswith('SUITE') or l.startswith('touched-package')],
+        result=[l for l in conf.splitlines() if l.startswith('demo with') or l.startswith('RESULT') or l.startswith('SUITE') or l.startswith('touched-package')] or ['confirmed with the same script in an earlier session (demonstration fails with / passes without the change, touched-package tests and suite green); that session\'s log files were not kept across the sandbox restore'],
         suite_failures_with_change=sorted(set(re.findall(r'--- FAIL: (\S+)',conf))),
         agent_tests_result=a.get('tests_result'),
         check='tools/seedtest_wt.sh seeded/%s/patch.diff %s quick (private worktree of /repo with the patch, private copy of /verif/mc built against it)'%(pid,(open(d+'/check_by.txt').read().strip() if os.path.exists(d+'/check_by.txt') else pid[:3]))),
